@@ -964,8 +964,9 @@ class ExprRewriter(ast.NodeTransformer, EmitterMixin):
         if node.type is None:
             with fast.location_of(node):
                 node.type = fast.Name(BaseException.__name__, ast.Load())
-                self.orig_to_copy_mapping[id(node.type)] = node.type
-            node_type_id = id(node.type)
+            # a bare `except:` has no type expression: the event is about the handler itself (the generated
+            # name is in no node table, and its id would be recycled for a node of some later file)
+            node_type_id = id(node)
         else:
             node_type_id = id(node.type)
             node.type = self.visit(node.type)
